@@ -16,6 +16,7 @@ def run(ctx):
     ctx.tlc_mc("Pipeline.tla", "Pipeline_dev_alter.cfg", timeout=300, expect_violation="LayersParallel", count=False)
     # and persisting a table only when its FIRST index is modified (before fix c9087ac) loses deletes in a new index
     ctx.tlc_mc("Pipeline.tla", "Pipeline_dev_f20.cfg", timeout=300, expect_violation="ReopenSeesAll", count=False)
-    dbcommon.run_db(ctx, "admin", 30 if ctx.thorough() else 2, "C06a")
-    dbcommon.run_db(ctx, "tranpairs", 30 if ctx.thorough() else 2, "C06p")
+    for k in range(4 if ctx.thorough() else 1):
+        dbcommon.run_db(ctx, "admin", 30 if ctx.thorough() else 2, "C06a" + "x" * k)
+        dbcommon.run_db(ctx, "tranpairs", 30 if ctx.thorough() else 2, "C06p" + "x" * k)
     ctx.assumptions += dbcommon.ASSUME
